@@ -40,6 +40,21 @@ CLAIMED = {
  "C19": dict(cat="other", tech="exhaustive enumeration over item tables and the resolved call graph; compiler-computed Freeze; type-level witness crate with compile-fail twins",
    text="Statics/thread-locals/interior-mutable consts are exactly the frozen set with frozen readers; transitive field types are plain data; no static, FFI, allocation or I/O is reachable from a generator operation; all generator types are Send+Sync+'static (witness crate), with twins that must fail (E0277, E0451).",
    note=TB + "; cargo check of the witness crate against /repo", ref="4/C19"),
+ "C12": dict(cat="other", tech="value numbering of each Jitterentropy fragment with timer calls as numbered opaque readings; identity with the reference transcription; loop records (bounds, per-iteration effects, tick depth of the world token)",
+   text="lfsr, random_loop_cnt(4), stuck, stir_pool are proved identical (normal forms) to the documented procedure; lfsr_time, memaccess, measure_jitter, gen_entropy, timer_stats, new_with_timer are pinned through call sequences, arguments, loop bounds and state effects; timer readings per fragment are counted on every path.",
+   note=TB + "; composition of fragments into whole-call behaviour is the paper argument of DESIGN.md 4/C12", ref="4/C12"),
+ "C13": dict(cat="proof", tech="abstract interpretation of test_timer (opaque readings, interval invariants with trip-count acceleration for the 400-probe loop); interval of the Ok value under the Ok path condition; identity of guard and counter-update terms",
+   text="Under the Ok path condition the returned value's interval is within [1,128]; the table entries on the feasible index range and the formula (127+l)/l are shown sufficient (r*bitlen(mean) >= 128); the Ok/Err structure is exactly the documented chain of guards with the documented thresholds and counter predicates; set_rounds panics exactly on 0.",
+   note=TB + "; interval reasoning of vf/prims.py and loop invariants of vf/loops.py; each timer reading is an arbitrary u64", ref="4/C13"),
+ "C14": dict(cat="proof", tech="abstract interpretation of every API root on dev-profile MIR: constant folding, known bits, intervals with path assumptions, loop invariants (havoc + interval fixpoint + acceleration), inductive class invariant for Hc128Core",
+   text="Every Assert terminator (overflow, bounds, division, shift) and library precondition reachable from any API root with unconstrained arguments is discharged; explicit panics are exactly the documented table; unknown callees are reported; the counter invariant of Hc128Core is re-proved at every exit.",
+   note=TB + "; asserts inside rand_core's generic machinery are listed, not judged; platform clock unwrap excluded with reason", ref="4/C14"),
+ "C15": dict(cat="proof", tech="who-writes query on JitterRng.data; GF(2) bit-matrix extraction of every pool update by value numbering (constant loops unrolled); rank",
+   text="Each of the pool's writers is shown to map the old pool affinely with a rank-64 matrix (LFSR fold: also rank 64 in the time value; rotation; stir), or to store the value the collection just produced.",
+   note=TB, ref="4/C15"),
+ "C16": dict(cat="other", tech="typestate by value numbering with gen_entropy as an opaque state-threading call; who-writes query; loop record of the rounds loop; bounded evaluation of rand_core's fill_bytes_via_next for constant lengths",
+   text="next_u32/next_u64/clone bookkeeping of the pending half is decided exactly; gen_entropy's rounds loop runs 0..rounds with at least one timer read per round; fill_bytes lengths 1..=12 (24 thorough) are evaluated; one known finding (fill_bytes of 1..=4 bytes consumes a pending half by design) is listed in known_findings.json.",
+   note=TB, ref="4/C16"),
 }
 
 checks = []
